@@ -80,6 +80,7 @@ fn interleaving_hash(h: &History) -> u64 {
             Kind::TimerArm { .. } => "TA",
             Kind::TimerFire { .. } => "TF",
             Kind::TimerCmp { .. } => "TC",
+            Kind::CtlAbandon { .. } => "CA",
             Kind::NeighbourMutate { .. } => "NM",
             Kind::OpCancel { .. } => "OC",
             Kind::HttpSend { .. } => "HS",
@@ -118,6 +119,7 @@ fn interleaving_hash(h: &History) -> u64 {
             Kind::MockAnswer { .. } => "MA",
             Kind::MockFailure { .. } => "MF",
             Kind::MockDirect { .. } => "MD",
+            Kind::MockDirectEvent { .. } => "ME",
         };
         for b in tag.as_bytes() {
             x ^= *b as u64;
